@@ -760,6 +760,51 @@ example (env : Env) (hp : RulesProgress env.cfg = true) (hnf : env.faultAt = non
   exact .cons (b1 := B _) ⟨vdecl_ok "f" (by decide) F hF, Y [_, _, _] _ (by decide)⟩
     (.cons (b1 := B _) ⟨.inl rfl, rfl, Y [_, _] _ (by decide)⟩
       (.cons (b1 := B _) ⟨vdecl_ok "g" (by decide) F hF, Y [_, _, _] _ (by decide)⟩ (.nil _)))
+
+/-! non-vacuity of the generalised forms inside a whole source: the tokens of
+    `namespace a { const unsigned long * const & r ; typedef unsigned long * P ; }` form an `Item` (a namespace holding a
+    reference variable over a cv-qualified fundamental type and a typedef), so `C01_whole_source` applies to it. -/
+private def ulName (env : Env) (F D : Nat) (hF : 5 ≤ F) :
+    NameSpecR env F D [tkw "unsigned" "unsigned", tkw "long" "long"] [.fund "unsigned long"] :=
+  nameSpecR_fund env F D (tkw "unsigned" "unsigned") [tkw "long" "long"] rfl (by decide) (by decide) (by show 1 + 1 ≤ F; omega)
+
+private def refD : DeclToks :=
+  { spec := [tkw "const" "const", tkw "unsigned" "unsigned", tkw "long" "long"], segs := [.fund "unsigned long"], cst := true, vol := false,
+    ops := [tkw "*" "*", tkw "const" "const", tkw "&" "&"], x := tkw "NAME" "r", semi := tkw ";" ";",
+    d1 := .ref (.ptr (.type (.mk [.fund "unsigned long"] none false) true false) true false) }
+
+private def tdD : DeclToks :=
+  { spec := [tkw "unsigned" "unsigned", tkw "long" "long"], segs := [.fund "unsigned long"], cst := false, vol := false,
+    ops := [tkw "*" "*"], x := tkw "NAME" "P", semi := tkw ";" ";",
+    d1 := .ptr (.type (.mk [.fund "unsigned long"] none false) false false) false false }
+
+private theorem refD_ok (env : Env) (F D : Nat) (hF : 5 ≤ F) : refD.OK env F D := by
+  refine ⟨?_, ⟨_, _, rfl, by decide⟩, by decide, ?_, rfl, rfl, by decide, rfl, by omega⟩
+  · exact typeSpecR_cv env F D [tkw "const" "const"] [tkw "unsigned" "unsigned", tkw "long" "long"] [] [.fund "unsigned long"]
+      (ulName env F D hF) (by decide) (by decide) (by show 1 + 0 + 3 ≤ F; omega)
+  · exact prefixSpec_ref env F (D + 1) _ _ [("*", "*"), ("const", "const")] ("&", "&") rfl rfl (.inl rfl) (by show 2 + 1 ≤ F; omega)
+
+private theorem tdD_ok (env : Env) (F D : Nat) (hF : 5 ≤ F) : tdD.OK env F D := by
+  refine ⟨?_, ⟨_, _, rfl, by decide⟩, by decide, ?_, rfl, rfl, by decide, rfl, by omega⟩
+  · exact typeSpecR_cv env F D [] [tkw "unsigned" "unsigned", tkw "long" "long"] [] [.fund "unsigned long"]
+      (ulName env F D hF) (by decide) (by decide) (by show 0 + 0 + 3 ≤ F; omega)
+  · exact prefixSpec_ptr env F (D + 1) _ _ [("*", "*")] rfl (by show 1 + 1 ≤ F; omega)
+
+example (env : Env) (hp : RulesProgress env.cfg = true) (hnf : env.faultAt = none) (hskip : ∀ i h, env.skip i h = false)
+    (F D : Nat) (hF : 5 ≤ F) (lex : LexState) :
+    ∃ bE, (Item.ns env hp hnf F D hskip ["a"] (Item.seq [Item.variablePre env hp hnf F D refD,
+        Item.typedefPre env hp hnf F D (tkw "typedef" "typedef") tdD])).At
+      { tokbuf := [tkw "namespace" "namespace", tkw "NAME" "a", tkw "{" "{",
+          tkw "const" "const", tkw "unsigned" "unsigned", tkw "long" "long", tkw "*" "*", tkw "const" "const", tkw "&" "&", tkw "NAME" "r", tkw ";" ";",
+          tkw "typedef" "typedef", tkw "unsigned" "unsigned", tkw "long" "long", tkw "*" "*", tkw "NAME" "P", tkw ";" ";",
+          tkw "}" "}"], lex := lex, bounded := true } bE := by
+  let B : List Tok → Buf := fun l => { tokbuf := l, lex := lex, bounded := true }
+  have Y : ∀ (ts rest : List Tok), (∀ t ∈ ts, isDiscard t.type = false) → Yields env.cfg (B (ts ++ rest)) ts (B rest) :=
+    fun ts rest h => Yields.of_tokbuf env.cfg lex true ts rest h
+  refine ⟨B [], tkw "namespace" "namespace", tkw "NAME" "a", [], tkw "{" "{", tkw "}" "}", B _, B [tkw "}" "}"],
+    rfl, rfl, by simp, rfl, rfl, by show 0 + 1 ≤ F; omega, Y [_, _, _] _ (by decide), ?_, (Y [tkw "}" "}"] [] (by decide)).single_inv, rfl⟩
+  refine .cons (b1 := B _) ⟨refD_ok env F (D + 1 + 1) hF, Y refD.toks _ (by decide)⟩
+    (.cons (b1 := B _) ⟨⟨rfl, by decide, tdD_ok env F (D + 1 + 1) hF⟩, Y (tkw "typedef" "typedef" :: tdD.toks) _ (by decide)⟩ (.nil _))
 end nonvacuity
 
 end Cxx
